@@ -232,7 +232,7 @@ def area_problem(draw, tier):
             us.append({"name": f"CU{i + 1}", "type": "Cold", "t_supply": lv, "t_target": lv, "heat_flow": None, "dt_cont": draw(dts), "htc": draw(st.sampled_from([0.5, 1.0, 4.0])), "price": 10.0, "active": True})
     opts = {"DO_AREA_TARGETING": True, "DT_CONT": draw(st.sampled_from([2.5, 5.0, 10.0]))}
     if draw(st.booleans()):
-        opts.update({"FIXED_COST": draw(st.sampled_from([0.0, 1000.0, 8000.0])), "VARIABLE_COST": draw(st.sampled_from([100.0, 1200.0, 10000.0])), "COST_EXP": draw(st.sampled_from([0.5, 0.6, 0.81, 1.0])), "DISCOUNT_RATE": draw(st.sampled_from([0.001, 0.01, 0.07, 0.2, 1.0, 1.5, 4.0])), "SERV_LIFE": draw(st.sampled_from([1.0, 5.0, 20.0, 50.0]))})
+        opts.update({"FIXED_COST": draw(st.sampled_from([0.0, 1000.0, 8000.0, 2500.75, 0.5])), "VARIABLE_COST": draw(st.sampled_from([100.0, 1200.0, 10000.0, 812.5, 0.9])), "COST_EXP": draw(st.sampled_from([0.5, 0.6, 0.81, 1.0])), "DISCOUNT_RATE": draw(st.sampled_from([0.001, 0.01, 0.07, 0.2, 1.0, 1.5, 4.0])), "SERV_LIFE": draw(st.sampled_from([1.0, 5.0, 20.0, 50.0, 12.5, 1.5]))})
     case = {"streams": ss, "utilities": us, "options": opts}
     if draw(st.integers(0, 2)) == 0:
         # every number independently a bare float or a value-with-unit object (S.apply_spelling); the reference uses the bare numbers
